@@ -84,4 +84,13 @@ EcScripts ==
       ka \in EcPairs, p1 \in Providers }
 MCSpec == ISpecWith(C05Scripts)
 MCSpecEc == ISpecWith(EcScripts)
+\* "any token returned": also the one returned although an allocation failed inside generate (stage 'faults':
+\* every allocation request made inside jwt_builder_generate fails once)
+FaultScripts ==
+  { Script(ka[1], ka[2], p, p, "flat", "flat", tc) :
+      ka \in { <<OctKey(32, "a", NONE, NONE), "HS256">>, <<AsymKey("rsa2048a", 1, NONE, NONE), "RS256">>,
+               <<AsymKey("p256a", 1, NONE, NONE), "ES256">>, <<AsymKey("ed25519a", 1, NONE, NONE), "EdDSA">> },
+      p \in Providers,
+      tc \in { <<>>, <<[op |-> "BOffset", b |-> 0, claim |-> "exp", secs |-> WOf(3600)], [op |-> "BOffset", b |-> 0, claim |-> "nbf", secs |-> WOf(60)]>> } }
+MCSpecFault == ISpecWith(FaultScripts)
 =============================================================================
